@@ -207,6 +207,26 @@ pub async fn production_startup(out: &mut Out, real: &mut Real) {
     }
     let snap = state.snapshot_state().await;
     out.op("APPLY2".into(), format!("applied {}", show_upds(&sorted_map(&snap))));
+    // idempotence through the real entry point: the whole start-up sequence once more on the SAME node
+    if crate::c11::coherent(&{
+        let mut all = real.persisted();
+        all.extend(real.wal.iter().map(|(_, u)| u.clone()));
+        all
+    }) {
+        if integ.recover(&state).await.is_ok() {
+            let entries = rot.recover_all_entries().unwrap_or_default();
+            let deltas: Vec<ReplicationDelta> = entries.iter().filter_map(|e| e.to_delta().ok()).collect();
+            if !deltas.is_empty() {
+                state.apply_recovered_state(None, deltas);
+            }
+            let snap2 = state.snapshot_state().await;
+            out.count("x11:recovery-entry-point-run-twice");
+            if sorted_map(&snap2) != sorted_map(&snap) {
+                out.violation("C11:applied-state:second-startup-sequence-differs", "running the production start-up sequence (StreamingIntegration::recover + WAL replay) a second time on the same node changes its state",
+                    json!({"layout": real.text, "first": show_upds(&sorted_map(&snap)), "second": show_upds(&sorted_map(&snap2))}));
+            }
+        }
+    }
     real.text.push_str("APPLY2;");
     out.count("x11:production-startup-sequence");
 }
